@@ -195,6 +195,27 @@ type Envelope struct {
 	To    string
 }
 
+// headerAddr converts the domain of the address (or of the message ID) to
+// the form that can be used in the header of the report: A-labels unless the
+// report is an internationalized message. The value is returned as is if it
+// cannot be converted.
+func headerAddr(utf8 bool, addr string) string {
+	at := strings.LastIndexByte(addr, '@')
+	if at == -1 {
+		return addr
+	}
+	domain := addr[at+1:]
+	suffix := ""
+	if strings.HasSuffix(domain, ">") {
+		domain, suffix = domain[:len(domain)-1], ">"
+	}
+	converted, err := dns.SelectIDNA(utf8, domain)
+	if err != nil {
+		return addr
+	}
+	return addr[:at+1] + converted + suffix
+}
+
 // GenerateDSN is a top-level function that should be used for generation of the DSNs.
 //
 // DSN header will be returned, body itself will be written to outWriter.
@@ -203,19 +224,19 @@ func GenerateDSN(utf8 bool, envelope Envelope, mtaInfo ReportingMTAInfo, rcptsIn
 
 	reportHeader := textproto.Header{}
 	reportHeader.Add("Date", time.Now().Format("Mon, 2 Jan 2006 15:04:05 -0700"))
-	reportHeader.Add("Message-Id", envelope.MsgID)
+	reportHeader.Add("Message-Id", headerAddr(utf8, envelope.MsgID))
 	reportHeader.Add("Content-Transfer-Encoding", "8bit")
 	reportHeader.Add("Content-Type", "multipart/report; report-type=delivery-status; boundary="+partWriter.Boundary())
 	reportHeader.Add("MIME-Version", "1.0")
 	reportHeader.Add("Auto-Submitted", "auto-replied")
 	// The envelope address has no quoting, the header field needs it if the
 	// local-part has spaces or other special characters.
-	toHdr := envelope.To
-	if mbox, domain, err := address.Split(envelope.To); err == nil && domain != "" {
+	toHdr := headerAddr(utf8, envelope.To)
+	if mbox, domain, err := address.Split(toHdr); err == nil && domain != "" {
 		toHdr = address.QuoteMbox(mbox) + "@" + domain
 	}
 	reportHeader.Add("To", toHdr)
-	reportHeader.Add("From", envelope.From)
+	reportHeader.Add("From", headerAddr(utf8, envelope.From))
 	reportHeader.Add("Subject", "Undelivered Mail Returned to Sender")
 
 	defer partWriter.Close()
